@@ -245,6 +245,10 @@ def gen_world(w):
         membranes.append(wg.fixture_membrane(nme, dirname(len(membranes))))
     for _ in range(n_syn):
         membranes.append(wg.synth_membrane(w, dirname(len(membranes))))
+    if len(membranes) >= 2 and w.random() < 0.08:
+        # results/ of one membrane is a symbolic link to the results/ of another (shared result store)
+        i, j = w.sample(range(len(membranes)), 2)
+        membranes[j]["results_link_to"] = membranes[i]["dir"]
     metas = [wg.membrane_meta(m) for m in membranes]
     pool = []
     for _ in range(w.randint(2, 5)):
@@ -525,6 +529,13 @@ def execute(ctx, plan, stats=None):
             src["dir"] = os.path.join("_src", m["dir"])
             wg.materialise_membrane(root, src, ctx.repo)
         os.makedirs(os.path.join(root, "files"))
+        linked = set()
+        for m in plan["membranes"]:
+            if m.get("results_link_to"):
+                target = os.path.join(root, m["results_link_to"], "results")
+                os.makedirs(target, exist_ok=True)
+                os.symlink(target, os.path.join(root, m["dir"], "results"))
+                linked.add(m["dir"])
         mixtures = ctx.A.info["mixtures"]
         which = "A"
         gen = 0
@@ -548,7 +559,8 @@ def execute(ctx, plan, stats=None):
             out = {}
             for d in mem_dirs:
                 res = os.path.join(root, d, "results")
-                out[d] = oc.list_dirs(res) if os.path.isdir(res) else []
+                # a linked results/ is listed under the membrane that really owns it (each directory once)
+                out[d] = oc.list_dirs(res) if (os.path.isdir(res) and d not in linked) else []
             return out
 
         def new_session(skew):
